@@ -41,16 +41,16 @@ func c05GenFx(r *verifh.Rng) []verifh.Section {
 	for i := 0; i < verifh.Scale(6, 200); i++ {
 		n := r.Pick(1, 2, 3, r.Range(1, 8), 16)
 		secs = append(secs, verifh.Section{Cfg: fmt.Sprintf("kind=fx mode=conc n=%d", n), Ops: []string{
-			fmt.Sprintf("run items=%d pan=%d rs=%d", r.Range(1, verifh.Scale(200, 600)), r.Pick(0, 10, 40), r.Intn(1<<30)),
-			fmt.Sprintf("run items=%d pan=%d rs=%d", r.Range(1, 60), 100, r.Intn(1<<30)),
+			fmt.Sprintf("run items=%d pan=%d exits=%s rs=%d", r.Range(1, verifh.Scale(200, 600)), r.Pick(0, 10, 40), r.PickS("s", "seg", "e"), r.Intn(1<<30)),
+			fmt.Sprintf("run items=%d pan=%d exits=%s rs=%d", r.Range(1, 60), 100, r.PickS("seg", "g", "se"), r.Intn(1<<30)),
 		}})
 	}
 	for i := 0; i < verifh.Scale(6, 200); i++ {
 		n := r.Pick(1, 2, 3, r.Range(1, 8), 16)
 		secs = append(secs, verifh.Section{Cfg: fmt.Sprintf("kind=mr mode=conc n=%d", n), Ops: []string{
-			fmt.Sprintf("run api=foreach items=%d pan=%d rs=%d", r.Range(1, verifh.Scale(200, 600)), r.Pick(0, 0, 5), r.Intn(1<<30)),
+			fmt.Sprintf("run api=foreach items=%d pan=%d exits=%s rs=%d", r.Range(1, verifh.Scale(200, 600)), r.Pick(0, 0, 5), r.PickS("s", "g", "eg"), r.Intn(1<<30)),
 			fmt.Sprintf("run api=void items=%d pan=0 rs=%d", r.Range(1, verifh.Scale(200, 600)), r.Intn(1<<30)),
-			fmt.Sprintf("run api=foreach items=%d pan=%d rs=%d", r.Range(1, 60), r.Pick(30, 100), r.Intn(1<<30)),
+			fmt.Sprintf("run api=foreach items=%d pan=%d exits=%s rs=%d", r.Range(1, 60), r.Pick(30, 100), r.PickS("seg", "g", "e"), r.Intn(1<<30)),
 		}})
 	}
 	secs = append(secs, c05GenOptSeqs(r)...)
@@ -100,7 +100,7 @@ func c05GenOptSeqs(r *verifh.Rng) []verifh.Section {
 	for _, lib := range []string{"fx", "mr"} {
 		apis := []string{"walk", "map", "filter", "parallel"}
 		if lib == "mr" {
-			apis = []string{"foreach", "void", "mapreduce"}
+			apis = []string{"foreach", "void", "mapreduce", "chan"}
 		}
 		for i := 0; i < verifh.Scale(7, 120); i++ {
 			var ops []string
@@ -125,7 +125,18 @@ func c05GenOptSeqs(r *verifh.Rng) []verifh.Section {
 				if lib == "mr" {
 					pan = r.Pick(0, 0, 0, 10)
 				}
-				ops = append(ops, fmt.Sprintf("run opt=%s api=%s items=%d pan=%d rs=%d", opt, apis[r.Intn(len(apis))], items, pan, r.Intn(1<<30)))
+				api := apis[r.Intn(len(apis))]
+				if j == 0 {
+					api = apis[i%len(apis)] // every entry point appears in every run
+				}
+				if lib == "mr" && (r.Chance(1, 5) || (j == 1 && i < 2)) {
+					// mr.Finish / FinishVoid(fns...) take no options: they ask for WithWorkers(len(fns)) themselves, so
+					// the cap of the run is the number of functions — written as the option the driver derives it from
+					api = r.PickS("finish", "finishvoid")
+					items = r.Range(1, 12)
+					opt = "w" + strconv.Itoa(items)
+				}
+				ops = append(ops, fmt.Sprintf("run opt=%s api=%s items=%d pan=%d exits=%s rs=%d", opt, api, items, pan, r.PickS("s", "seg", "g"), r.Intn(1<<30)))
 			}
 			secs = append(secs, verifh.Section{Cfg: fmt.Sprintf("kind=%sopts mode=conc", lib), Ops: ops})
 		}
@@ -159,7 +170,7 @@ func c05StartOptSeq(cfg verifh.Cfg) (func(op []string) string, func()) {
 		base := runtime.NumGoroutine()
 		sat := c5.NewSaturator()
 		body := func(item int) {
-			sat.Body(verifh.NewRng(uint64(p.Int("rs", 1))*1000003+uint64(item)), item, pan)
+			sat.BodyK(verifh.NewRng(uint64(p.Int("rs", 1))*1000003+uint64(item)), item, pan, p.Str("exits", "s"))
 		}
 		full := func() bool { return c5.BlockedIn("fx.Stream.walkLimited", "chan send") }
 		if lib == "mr" {
@@ -221,6 +232,38 @@ func c05StartOptSeq(cfg verifh.Cfg) (func(op []string) string, func()) {
 					}
 					w.Write(k)
 				}, mro...)
+			case "mr/chan":
+				source := make(chan int)
+				go func() {
+					defer close(source)
+					for i := 0; i < items; i++ {
+						source <- i
+					}
+				}()
+				_, _ = mr.MapReduceChan(source, func(item int, w mr.Writer[int], cancel func(error)) {
+					body(item)
+					w.Write(item)
+				}, func(pipe <-chan int, w mr.Writer[int], cancel func(error)) {
+					k := 0
+					for range pipe {
+						k++
+					}
+					w.Write(k)
+				}, mro...)
+			case "mr/finish":
+				fns := make([]func() error, items)
+				for i := range fns {
+					i := i
+					fns[i] = func() error { body(i); return nil }
+				}
+				_ = mr.Finish(fns...)
+			case "mr/finishvoid":
+				fns := make([]func(), items)
+				for i := range fns {
+					i := i
+					fns[i] = func() { body(i) }
+				}
+				mr.FinishVoid(fns...)
 			default:
 				panic("bad-api")
 			}
@@ -254,9 +297,11 @@ func c05StartWorkers(cfg verifh.Cfg) (func(op []string) string, func()) {
 		h := c5.NewHist(0)
 		ga := &c5.Gauge{}
 		body := func(item int) {
-			c5.Inside(h, ga, verifh.NewRng(uint64(p.Int("rs", 1))*1000003+uint64(item)), -1, item, pan)
+			c5.InsideK(h, ga, verifh.NewRng(uint64(p.Int("rs", 1))*1000003+uint64(item)), -1, item, pan, p.Str("exits", "s"))
 		}
-		ended := c5.Watchdog(c5.StuckAfter, func() {
+		// no saturator here: the history moves as long as items flow, a run whose dispatcher waits for a slot that
+		// never comes back is given up after the no-progress window
+		ended := c5.WatchdogProgress(h, c5.StuckIdle, c5.StuckAfter, func() {
 			defer func() { _ = recover() }() // mr re-panics a mapper's panic in the caller
 			switch kind {
 			case "fx":
